@@ -347,6 +347,26 @@ def _run(scn, w, rec, BADS):
         raise
     except Exception as e:
         raise HarnessError("history oracle failed: " + repr(e) + "\n" + traceback.format_exc()) from e
+    if scn.get("second_optimize"):
+        # history op: optimize() called again on the same object (continuing from the returned point). Unmonitored -
+        # the seams go passive and the per-instance wrappers are removed - only an internal error counts (C09).
+        for name in ("_init_mesh_", "_search_step_", "_poll_step_"):
+            b.__dict__.pop(name, None)
+        w.passive = True
+        W.set_world(None)
+        try:
+            res2 = b.optimize()
+            w.probe("second_optimize_completed")
+            if not isinstance(res2, dict):
+                w.violate("C09", "second-optimize-no-result", "a second optimize() on the same object did not return an OptimizeResult")
+        except SimLimit:
+            w.probe("second_optimize_capped")
+        except Exception as e:
+            fr = exc_class(e)
+            w.violate("C09", f"crash-second-optimize:{type(e).__name__}@{fr[1]}", "a second optimize() on the same object failed with an internal error: " + str(e)[:200],
+                      line=fr[2])
+        finally:
+            W.set_world(w)
 
 
 # ---------------------------------------------------------------------------
